@@ -11,8 +11,15 @@ Layout
   §3  the reader, shape by shape (also the box / rectangle / rotrectangle notations)
   §4  one region through the table
   §5  components
-  §6  the round trip for lists; through a file; skipped regions; fixed point
-  §7  the findings: full statements, refutations on the current code, partial theorems
+  §6  the round trip for lists; through a file; skipped regions; fixed point; other notations
+  §7  the property at full strength (`RoundTrip`, `FileRoundTrip`, `FixedPoint`) for every code
+      variant: characterisation `…_iff` (holds ⇔ the repairs are in), one independent witness per
+      finding, then the statements about the code as it is now (`…_full`, `…_full_refuted`,
+      `…_partial` + satisfiability examples) and about the patched code (`…_fixed`)
+
+Reading of "the same component numbers where given (fresh, distinct ones otherwise)": when no
+region of the list carries a component no COMPONENT column is written and none comes back
+(`ComponentsOK`, first clause).
 -/
 import RegionsVerif.Impl.Fits
 import RegionsVerif.Gen.FitsTables
@@ -792,9 +799,9 @@ the X column is wide). -/
 def ok10 (v : Variant) (regs : List Reg) : Bool :=
   v.f10 || regs.all (fun r => !isPoly r || decide (r.xs.length = colWidth (regs.map (·.xs))))
 
-/-- F25 does not bite: repaired, or the components are all given or all absent. -/
-def ok25 (v : Variant) (regs : List Reg) : Bool :=
-  v.f25 || regs.all (fun r => r.comp.isSome) || regs.all (fun r => r.comp.isNone)
+/-- F121 does not bite: repaired, or the components are all given or all absent. -/
+def ok121 (v : Variant) (regs : List Reg) : Bool :=
+  v.f121 || regs.all (fun r => r.comp.isSome) || regs.all (fun r => r.comp.isNone)
 
 theorem parseRows_zipWith {α : Type} (v : Variant) (cols : List Name) (f : α → Int → TRow)
     (g : α → Int → Reg) (l : List α) (cs : List Int)
@@ -970,6 +977,16 @@ theorem forall₂_map_of {R : Reg → Reg → Prop} (g : Reg → Reg) (l : List 
   | cons a t ih =>
     exact List.Forall₂.cons (h a (List.mem_cons_self ..)) (ih (fun b hb => h b (List.mem_cons_of_mem _ hb)))
 
+theorem forall₂_get {R : Reg → Reg → Prop} (l1 l2 : List Reg) (h : List.Forall₂ R l1 l2) :
+    l1.length = l2.length ∧ ∀ (i : Nat) (hi : i < l1.length) (hi' : i < l2.length), R l1[i] l2[i] := by
+  induction h with
+  | nil => exact ⟨rfl, fun i hi => absurd hi (Nat.not_lt_zero _)⟩
+  | cons hab _ ih =>
+    refine ⟨by simp [ih.1], fun i hi hi' => ?_⟩
+    cases i with
+    | zero => exact hab
+    | succ j => exact ih.2 j (by simpa using hi) (by simpa using hi')
+
 theorem forall₂_zipWith_of {R : Reg → Reg → Prop} {P : Option Int → Int → Prop} (g : Reg → Int → Reg)
     (regs : List Reg) (cs : List Int) (hP : List.Forall₂ P (regs.map (·.comp)) cs)
     (h : ∀ r ∈ regs, ∀ c, P r.comp c → R r (g r c)) :
@@ -1076,7 +1093,7 @@ theorem roundtrip_core (v : Variant) (regs : List Reg) (hrep : ∀ r ∈ regs, r
 
 theorem defineComponents_obj (v : Variant) (cs : List (Option Int)) (p : List Int × Bool)
     (h : defineComponents v cs = some p)
-    (h25 : v.f25 = true ∨ cs.all Option.isSome = true ∨ ∀ g ∈ cs, g = none) : p.2 = false := by
+    (h25 : v.f121 = true ∨ cs.all Option.isSome = true ∨ ∀ g ∈ cs, g = none) : p.2 = false := by
   unfold defineComponents at h
   by_cases hall : cs.all Option.isSome = true
   · simp only [hall, if_true, Option.some.injEq] at h
@@ -1095,10 +1112,10 @@ theorem defineComponents_obj (v : Variant) (cs : List (Option Int)) (p : List In
         intro a ha; rw [h25 a ha]; rfl
       rw [hfm] at h; cases h
 
-/-- the written table has an object-dtype COMPONENT column only if F25 bites
+/-- the written table has an object-dtype COMPONENT column only if F121 bites
 (unrepaired and the components are partially present). -/
 theorem compObject_serialize (v : Variant) (regs : List Reg) (hrep : ∀ r ∈ regs, representable r = true)
-    (h8 : ∀ r ∈ regs, ok8 v r = true) (h25 : ok25 v regs = true) :
+    (h8 : ∀ r ∈ regs, ok8 v r = true) (h25 : ok121 v regs = true) :
     (serialize v regs).compObject = false := by
   unfold serialize
   rw [regionData_rep v regs hrep h8]
@@ -1119,7 +1136,7 @@ theorem compObject_serialize (v : Variant) (regs : List Reg) (hrep : ∀ r ∈ r
       obtain ⟨cs, obj⟩ := p
       simp only
       refine defineComponents_obj v _ (cs, obj) hdc ?_
-      simp only [ok25, Bool.or_eq_true, List.all_eq_true, Option.isNone_iff_eq_none] at h25
+      simp only [ok121, Bool.or_eq_true, List.all_eq_true, Option.isNone_iff_eq_none] at h25
       rcases h25 with (h | h) | h
       · exact Or.inl h
       · right; left
@@ -1133,7 +1150,7 @@ theorem compObject_serialize (v : Variant) (regs : List Reg) (hrep : ∀ r ∈ r
 /-- THE ROUND TRIP THROUGH A FILE, for every variant and every lawful file layer. -/
 theorem file_roundtrip_core {F : Type} (fl : FileLayer F) (hfl : fl.Lawful) (v : Variant) (regs : List Reg)
     (hrep : ∀ r ∈ regs, representable r = true) (h8 : ∀ r ∈ regs, ok8 v r = true)
-    (h9 : ok9 v regs = true) (h10 : ok10 v regs = true) (h25 : ok25 v regs = true) :
+    (h9 : ok9 v regs = true) (h10 : ok10 v regs = true) (h25 : ok121 v regs = true) :
     ∃ out, throughFile fl v regs = .ok out ∧ List.Forall₂ SameRegion regs out ∧
       ComponentsOK (regs.map (·.comp)) (out.map (·.comp)) := by
   obtain ⟨out, hout, hs, hc⟩ := roundtrip_core v regs hrep h8 h9 h10
@@ -1498,8 +1515,8 @@ def wF9 : List Reg := [⟨.circle, false, [1], [2], [3], none, .bool false, some
 def wF10 : List Reg :=
   [⟨.polygon, false, [1, 2, 3], [4, 5, 7], [], none, .absent, none⟩,
    ⟨.polygon, false, [1, 2, 3, 4], [4, 5, 7, 1], [], none, .absent, none⟩]
-/-- the F25 witness: two points, one with a component. -/
-def wF25 : List Reg :=
+/-- the F121 witness: two points, one with a component. -/
+def wF121 : List Reg :=
   [⟨.point, false, [1], [2], [], none, .absent, some 3⟩, ⟨.point, false, [1], [2], [], none, .absent, none⟩]
 /-- the F8 fixed-point witness: a table with one `!ellipse` row. -/
 def tF8 : Table :=
@@ -1508,12 +1525,12 @@ def tF8 : Table :=
 
 /-- F8: while `'!'` is prefixed before the name map / the `'ellipse'` test, an excluded ellipse comes
 back with doubled axes — whatever the state of the other repairs. -/
-theorem not_roundtrip_of_F8 (f9 f10 f25 : Bool) : ¬ RoundTrip ⟨false, f9, f10, f25⟩ := by
+theorem not_roundtrip_of_F8 (f9 f10 f121 : Bool) : ¬ RoundTrip ⟨false, f9, f10, f121⟩ := by
   intro h
   obtain ⟨out, hp, hs, -⟩ := h wF8 (by decide +kernel)
-  have e : parseTable ⟨false, f9, f10, f25⟩ (serialize ⟨false, f9, f10, f25⟩ wF8) =
+  have e : parseTable ⟨false, f9, f10, f121⟩ (serialize ⟨false, f9, f10, f121⟩ wF8) =
       .ok [⟨.ellipse, false, [1], [2], [8, 4], some 30, .int 0, none⟩] := by
-    cases f9 <;> cases f10 <;> cases f25 <;> decide +kernel
+    cases f9 <;> cases f10 <;> cases f121 <;> decide +kernel
   rw [e] at hp
   cases hp
   cases hs with
@@ -1521,12 +1538,12 @@ theorem not_roundtrip_of_F8 (f9 f10 f25 : Bool) : ¬ RoundTrip ⟨false, f9, f10
 
 /-- F9: while the reader replaces `{'include': 0}` by `{'component': n}`, an excluded region that
 travels with a COMPONENT column comes back included. -/
-theorem not_roundtrip_of_F9 (f8 f10 f25 : Bool) : ¬ RoundTrip ⟨f8, false, f10, f25⟩ := by
+theorem not_roundtrip_of_F9 (f8 f10 f121 : Bool) : ¬ RoundTrip ⟨f8, false, f10, f121⟩ := by
   intro h
   obtain ⟨out, hp, hs, -⟩ := h wF9 (by decide +kernel)
-  have e : parseTable ⟨f8, false, f10, f25⟩ (serialize ⟨f8, false, f10, f25⟩ wF9) =
+  have e : parseTable ⟨f8, false, f10, f121⟩ (serialize ⟨f8, false, f10, f121⟩ wF9) =
       .ok [⟨.circle, false, [1], [2], [3], none, .absent, some 5⟩] := by
-    cases f8 <;> cases f10 <;> cases f25 <;> decide +kernel
+    cases f8 <;> cases f10 <;> cases f121 <;> decide +kernel
   rw [e] at hp
   cases hp
   cases hs with
@@ -1534,46 +1551,46 @@ theorem not_roundtrip_of_F9 (f8 f10 f25 : Bool) : ¬ RoundTrip ⟨f8, false, f10
 
 /-- F10: while polygons are padded with zeros, a polygon shorter than the X column comes back
 with extra `(0, 0)` vertices. -/
-theorem not_roundtrip_of_F10 (f8 f9 f25 : Bool) : ¬ RoundTrip ⟨f8, f9, false, f25⟩ := by
+theorem not_roundtrip_of_F10 (f8 f9 f121 : Bool) : ¬ RoundTrip ⟨f8, f9, false, f121⟩ := by
   intro h
   obtain ⟨out, hp, hs, -⟩ := h wF10 (by decide +kernel)
-  have e : parseTable ⟨f8, f9, false, f25⟩ (serialize ⟨f8, f9, false, f25⟩ wF10) =
+  have e : parseTable ⟨f8, f9, false, f121⟩ (serialize ⟨f8, f9, false, f121⟩ wF10) =
       .ok [⟨.polygon, false, [1, 2, 3, 0], [4, 5, 7, 0], [], none, .absent, none⟩,
            ⟨.polygon, false, [1, 2, 3, 4], [4, 5, 7, 1], [], none, .absent, none⟩] := by
-    cases f8 <;> cases f9 <;> cases f25 <;> decide +kernel
+    cases f8 <;> cases f9 <;> cases f121 <;> decide +kernel
   rw [e] at hp
   cases hp
   cases hs with
   | cons h1 _ => exact absurd h1.xs (by decide +kernel)
 
-/-- F25: while the filled COMPONENT array keeps dtype `object`, a list whose components are
+/-- F121: while the filled COMPONENT array keeps dtype `object`, a list whose components are
 partially present cannot be written to a file at all. -/
-theorem not_fileRoundtrip_of_F25 (f8 f9 f10 : Bool) : ¬ FileRoundTrip ⟨f8, f9, f10, false⟩ := by
+theorem not_fileRoundtrip_of_F121 (f8 f9 f10 : Bool) : ¬ FileRoundTrip ⟨f8, f9, f10, false⟩ := by
   intro h
-  obtain ⟨out, hp, -, -⟩ := h Table idFileLayer idFileLayer_lawful wF25 (by decide +kernel)
-  have e : throughFile idFileLayer ⟨f8, f9, f10, false⟩ wF25 = .error .typeError := by
+  obtain ⟨out, hp, -, -⟩ := h Table idFileLayer idFileLayer_lawful wF121 (by decide +kernel)
+  have e : throughFile idFileLayer ⟨f8, f9, f10, false⟩ wF121 = .error .typeError := by
     cases f8 <;> cases f9 <;> cases f10 <;> decide +kernel
   rw [e] at hp
   cases hp
 
 /-- F8 also breaks the fixed point: the reader's own output `!ellipse` is re-written un-halved. -/
-theorem not_fixedPoint_of_F8 (f9 f10 f25 : Bool) : ¬ FixedPoint ⟨false, f9, f10, f25⟩ := by
+theorem not_fixedPoint_of_F8 (f9 f10 f121 : Bool) : ¬ FixedPoint ⟨false, f9, f10, f121⟩ := by
   intro h
-  have e1 : parseTable ⟨false, f9, f10, f25⟩ tF8 =
+  have e1 : parseTable ⟨false, f9, f10, f121⟩ tF8 =
       .ok [⟨.ellipse, false, [1], [2], [4, 2], some 30, .int 0, none⟩] := by
-    cases f9 <;> cases f10 <;> cases f25 <;> decide +kernel
-  have h2 := h tF8 _ e1 ⟨by decide +kernel, by cases f9 <;> cases f10 <;> cases f25 <;> decide +kernel⟩
-  have e2 : parseTable ⟨false, f9, f10, f25⟩ (serialize ⟨false, f9, f10, f25⟩
+    cases f9 <;> cases f10 <;> cases f121 <;> decide +kernel
+  have h2 := h tF8 _ e1 ⟨by decide +kernel, by cases f9 <;> cases f10 <;> cases f121 <;> decide +kernel⟩
+  have e2 : parseTable ⟨false, f9, f10, f121⟩ (serialize ⟨false, f9, f10, f121⟩
       [⟨.ellipse, false, [1], [2], [4, 2], some 30, .int 0, none⟩]) =
       .ok [⟨.ellipse, false, [1], [2], [8, 4], some 30, .int 0, none⟩] := by
-    cases f9 <;> cases f10 <;> cases f25 <;> decide +kernel
+    cases f9 <;> cases f10 <;> cases f121 <;> decide +kernel
   rw [e2] at h2
   exact absurd h2 (by decide +kernel)
 
 /-- THE CHARACTERISATION: the in-memory round trip holds for all lists exactly when the three
 repairs F8, F9, F10 are in. -/
 theorem roundTrip_iff (v : Variant) : RoundTrip v ↔ (v.f8 = true ∧ v.f9 = true ∧ v.f10 = true) := by
-  obtain ⟨f8, f9, f10, f25⟩ := v
+  obtain ⟨f8, f9, f10, f121⟩ := v
   constructor
   · intro h
     cases f8
@@ -1587,9 +1604,9 @@ theorem roundTrip_iff (v : Variant) : RoundTrip v ↔ (v.f8 = true ∧ v.f9 = tr
     simp only at h8 h9 h10
     exact roundtrip_core _ regs hrep (fun r _ => by simp [ok8, h8]) (by simp [ok9, h9]) (by simp [ok10, h10])
 
-/-- … through a file: exactly when F25 is in as well. -/
+/-- … through a file: exactly when F121 is in as well. -/
 theorem fileRoundTrip_iff (v : Variant) :
-    FileRoundTrip v ↔ (v.f8 = true ∧ v.f9 = true ∧ v.f10 = true ∧ v.f25 = true) := by
+    FileRoundTrip v ↔ (v.f8 = true ∧ v.f9 = true ∧ v.f10 = true ∧ v.f121 = true) := by
   constructor
   · intro h
     have hm : RoundTrip v := by
@@ -1604,19 +1621,19 @@ theorem fileRoundTrip_iff (v : Variant) :
         · cases hf
         · cases hf; exact hp
     obtain ⟨h8, h9, h10⟩ := (roundTrip_iff v).mp hm
-    obtain ⟨f8, f9, f10, f25⟩ := v
-    cases f25
-    · exact absurd h (not_fileRoundtrip_of_F25 _ _ _)
+    obtain ⟨f8, f9, f10, f121⟩ := v
+    cases f121
+    · exact absurd h (not_fileRoundtrip_of_F121 _ _ _)
     · exact ⟨h8, h9, h10, rfl⟩
   · rintro ⟨h8, h9, h10, h25⟩ F fl hfl regs hrep
     exact file_roundtrip_core fl hfl v regs hrep (fun r _ => by simp [ok8, h8]) (by simp [ok9, h9])
-      (by simp [ok10, h10]) (by simp [ok25, h25])
+      (by simp [ok10, h10]) (by simp [ok121, h25])
 
 /-- … and the fixed point: exactly when F8 is in. -/
 theorem fixedPoint_iff (v : Variant) : FixedPoint v ↔ v.f8 = true := by
   constructor
   · intro h
-    obtain ⟨f8, f9, f10, f25⟩ := v
+    obtain ⟨f8, f9, f10, f121⟩ := v
     cases f8
     · exact absurd h (not_fixedPoint_of_F8 _ _ _)
     · rfl
@@ -1777,65 +1794,248 @@ theorem fixed_point_rectangular (v : Variant) (hf10 : v.f10 = false) (t : Table)
   obtain ⟨hne, h10⟩ := readFromRealTable_of_rectangular v hf10 t hrect regs hp
   exact fixed_point_core v t regs hp hne h8 h10
 
-/-! ### the code as it is now (`Variant.current`) -/
+/-! ### the code as it is now (`Variant.current`: F8, F9, F121 repaired, F10 open) -/
+
+theorem roundTrip_of_fileRoundTrip (v : Variant) (h : FileRoundTrip v) : RoundTrip v :=
+  ((fileRoundTrip_iff v).mp h |> fun ⟨h8, h9, h10, _⟩ => (roundTrip_iff v).mpr ⟨h8, h9, h10⟩)
 
 /-- `fits_roundtrip` at full strength on the current code. -/
 def fits_roundtrip_full : Prop := RoundTrip Variant.current
 
-/-- refuted on the model of the current code (F8, F9 and F10 each refute it; see
-`not_roundtrip_of_F8/F9/F10` for the three independent witnesses). -/
-theorem fits_roundtrip_full_refuted : ¬ fits_roundtrip_full :=
-  fun h => absurd ((roundTrip_iff Variant.current).mp h) (by decide)
+/-- refuted on the model of the current code, by F10 alone: the witness `wF10` (a triangle next to
+a quadrilateral) comes back with a fourth vertex `(0, 0)` on the triangle. -/
+theorem fits_roundtrip_full_refuted : ¬ fits_roundtrip_full := not_roundtrip_of_F10 true true true
 
-/-- the input class on which none of the open findings bites (decidable). -/
-def Unaffected (regs : List Reg) : Prop :=
-  (∀ r ∈ regs, ok8 Variant.current r = true) ∧ ok9 Variant.current regs = true ∧
-  ok10 Variant.current regs = true
+/-- the F10 input class, exactly: some polygon (or regular polygon) of the list has fewer vertices
+than the X column is wide, i.e. than the longest polygon of the list.  `NoShortPolygon` is its
+complement.  Decidable. -/
+def NoShortPolygon (regs : List Reg) : Prop :=
+  ∀ r ∈ regs, isPoly r = true → r.xs.length = colWidth (regs.map (·.xs))
 
-instance (regs : List Reg) : Decidable (Unaffected regs) := by unfold Unaffected; infer_instance
+instance (regs : List Reg) : Decidable (NoShortPolygon regs) := by unfold NoShortPolygon; infer_instance
 
-/-- `fits_roundtrip`, partial: on the current code every list of representable regions that is
-`Unaffected` — no excluded ellipse/annulus/rectangle (F8), no excluded region next to a given
-component (F9), no polygon shorter than the widest one (F10) — round-trips exactly:
-same classes, identical geometry in ℚ, same exclude flag, components clause.
-Any length, any mix, any padding. -/
+theorem ok10_of_noShortPolygon (v : Variant) (regs : List Reg) (h : NoShortPolygon regs) :
+    ok10 v regs = true := by
+  simp only [ok10, Bool.or_eq_true, List.all_eq_true, Bool.not_eq_true', decide_eq_true_eq]
+  right
+  intro r hr
+  cases hp : isPoly r
+  · exact Or.inl rfl
+  · exact Or.inr (h r hr hp)
+
+/-- the predicate excludes exactly the failing class: a list of representable regions that is NOT
+`NoShortPolygon` does not round-trip on the current code (its short polygon grows). -/
+theorem short_polygon_fails (regs : List Reg) (hrep : ∀ r ∈ regs, representable r = true)
+    (hshort : ¬ NoShortPolygon regs) :
+    ¬ ∃ out, parseTable Variant.current (serialize Variant.current regs) = .ok out ∧
+        List.Forall₂ SameRegion regs out := by
+  rintro ⟨out, hp, hs⟩
+  unfold NoShortPolygon at hshort
+  simp only [not_forall] at hshort
+  obtain ⟨r, hr, hpoly, hlen⟩ := hshort
+  -- r is written with padding and read back with all the padded values as vertices
+  have hfacts := representable_facts r (hrep r hr)
+  have hle : r.xs.length ≤ colWidth (regs.map (·.xs)) := le_colWidth _ _ (List.mem_map_of_mem (f := (·.xs)) hr)
+  have hlt : r.xs.length < colWidth (regs.map (·.xs)) := lt_of_le_of_ne hle hlen
+  -- compute what comes back for every region with the F10-repaired reader/writer switched OFF:
+  -- we only need the length of the vertex list of the row of `r`
+  have hrd := regionData_rep Variant.current regs hrep (fun a _ => by simp [ok8, Variant.current])
+  -- the position of r in the list
+  obtain ⟨i, hi, hri⟩ := List.getElem_of_mem hr
+  have hlenout : out.length = regs.length := (forall₂_get _ _ hs).1.symm
+  have hio : i < out.length := by omega
+  have hsame : SameRegion regs[i] out[i] := (forall₂_get _ _ hs).2 i hi hio
+  -- the row of r in the table
+  have hrow : ∃ rows, (serialize Variant.current regs).rows = rows ∧ rows.length = regs.length ∧
+      ∀ (j : Nat) (hj : j < regs.length) (hj' : j < rows.length),
+        rows[j].x = padCell (fillXY Variant.current) (colWidth (regs.map (·.xs))) regs[j].xs ∧
+        rows[j].shape = (dataOf (asWritten regs[j])).shape := by
+    unfold serialize
+    rw [hrd]
+    have hne : regs ≠ [] := by intro h; rw [h] at hr; cases hr
+    have hxs : (regs.map (fun r => dataOf (asWritten r))).map (·.x) = regs.map (·.xs) := by
+      simp only [List.map_map]
+      exact List.map_congr_left (fun a _ => (asWritten_fields a).1)
+    have hemp : (regs.map (fun r => dataOf (asWritten r))).isEmpty = false := by
+      cases regs with
+      | nil => exact absurd rfl hne
+      | cons _ _ => rfl
+    simp only [hemp, Bool.false_eq_true, if_false, makeTable, hxs]
+    have hspec := defineComponents_spec Variant.current
+      ((regs.map (fun r => dataOf (asWritten r))).map (·.component))
+    cases hdc : defineComponents Variant.current
+        ((regs.map (fun r => dataOf (asWritten r))).map (·.component)) with
+    | none =>
+      refine ⟨_, rfl, by simp, ?_⟩
+      intro j hj hj'
+      simp only [List.getElem_map, mkRow, (asWritten_fields regs[j]).1, dataOf, and_self]
+    | some p =>
+      obtain ⟨cs, obj⟩ := p
+      rw [hdc] at hspec
+      have hl : cs.length = regs.length := by simpa using hspec.1
+      refine ⟨_, rfl, by simp [hl], ?_⟩
+      intro j hj hj'
+      simp only [List.getElem_zipWith, List.getElem_map, mkRow, (asWritten_fields regs[j]).1, dataOf, and_self]
+  obtain ⟨rows, hrows, hrl, hrowj⟩ := hrow
+  -- parse: row i gives out[i]
+  have hparse : ∀ (cols : List Name) (rows : List TRow) (out : List Reg),
+      parseRows Variant.current cols rows = .ok out → out.length = rows.length →
+      ∀ (j : Nat) (hj : j < rows.length) (hj' : j < out.length),
+        parseRow Variant.current cols rows[j] = .ok (some out[j]) := by
+    intro cols rows
+    induction rows with
+    | nil => intro out _ _ j hj; cases hj
+    | cons row t ih =>
+      intro out hp hl j hj hj'
+      simp only [parseRows, bind, Except.bind] at hp
+      cases hpr : parseRow Variant.current cols row with
+      | error e => rw [hpr] at hp; cases hp
+      | ok o =>
+        rw [hpr] at hp
+        simp only at hp
+        cases hpt : parseRows Variant.current cols t with
+        | error e => rw [hpt] at hp; cases hp
+        | ok rs =>
+          rw [hpt] at hp
+          simp only [pure, Except.pure, Except.ok.injEq] at hp
+          have hrs : rs.length ≤ t.length := by
+            clear hp hl hj hj' ih
+            induction t generalizing rs with
+            | nil => simp only [parseRows, Except.ok.injEq] at hpt; rw [← hpt]; exact Nat.le_refl _
+            | cons row' t' ih' =>
+              simp only [parseRows, bind, Except.bind] at hpt
+              cases h1 : parseRow Variant.current cols row' with
+              | error e => rw [h1] at hpt; cases hpt
+              | ok o' =>
+                rw [h1] at hpt
+                simp only at hpt
+                cases h2 : parseRows Variant.current cols t' with
+                | error e => rw [h2] at hpt; cases hpt
+                | ok rs' =>
+                  rw [h2] at hpt
+                  simp only [pure, Except.pure, Except.ok.injEq] at hpt
+                  have := ih' rs' h2
+                  cases o' <;> simp only at hpt <;> rw [← hpt] <;> simp only [List.length_cons] <;> omega
+          cases o with
+          | none =>
+            simp only at hp
+            rw [← hp] at hl
+            simp only [List.length_cons] at hl
+            omega
+          | some x =>
+            simp only at hp
+            subst hp
+            cases j with
+            | zero => exact hpr
+            | succ j' =>
+              simp only [List.getElem_cons_succ]
+              exact ih rs hpt (by simpa using hl) j' (by simpa using hj) (by simpa using hj')
+  unfold parseTable at hp
+  split at hp
+  · cases hp
+  · rw [hrows] at hp
+    have hpi := hparse _ rows out hp (by omega) i (by omega) hio
+    obtain ⟨hxi, hsi⟩ := hrowj i hi (by omega)
+    -- what parseRow returns for a polygon row has as many vertices as the X cell has values
+    obtain ⟨incl1, shape, kind, refs, xs, ys, rest, region, hl, hg, hc, hout⟩ :=
+      parseRow_some' Variant.current _ rows[i] out[i] hpi
+    have hkind : out[i].kind = .polygon := by
+      rw [hsame.cls, hri]
+      unfold asWritten
+      simp only [isPoly, Bool.or_eq_true, decide_eq_true_eq] at hpoly
+      rcases hpoly with h | h
+      · simp [h]
+      · simp [h, Reg.toPolygon]
+    have hk2 : region.kind = .polygon := by
+      have : (setMeta Variant.current (serialize Variant.current regs).cols incl1 rows[i].component region).kind
+          = region.kind := by simp only [setMeta]; split <;> rfl
+      rw [← this, ← hout]; exact hkind
+    have hx := construct_xs_len kind xs ys rest region hc
+    have hkp : kind = .polygon := by
+      by_contra hne
+      exact (hx.1 hne).2 hk2
+    subst hkp
+    obtain ⟨hs', hrefs⟩ := polygon_entry _ (lookup_mem _ _ _ hl) rfl
+    simp only at hs' hrefs
+    subst hs'; subst hrefs
+    have hri' : isInfix "rectangle".toList "polygon".toList = false := by decide
+    have hf10 : Variant.current.f10 = false := rfl
+    simp only [getShapeParams, List.mapM_cons, List.mapM_nil, getColumnValues, hf10, TRow.cell, bind,
+      Except.bind, pure, Except.pure, hri', Bool.false_eq_true, if_false] at hg
+    cases hnx : nums rows[i].x.atleast1d with
+    | error e => rw [hnx] at hg; cases hg
+    | ok qx =>
+      rw [hnx] at hg
+      simp only at hg
+      cases hny : nums rows[i].y.atleast1d with
+      | error e => rw [hny] at hg; cases hg
+      | ok qy =>
+        rw [hny] at hg
+        simp only [List.flatten_nil, nums, if_neg (show ¬ ("polygon".toList = "ellipse".toList) by decide),
+          Except.ok.injEq, Prod.mk.injEq] at hg
+        obtain ⟨rfl, rfl, _⟩ := hg
+        have hlx : qx.length = colWidth (regs.map (·.xs)) := by
+          rw [nums_length _ _ hnx, hxi, atleast1d_padCell _ _ _ (by rw [hri]; exact hfacts.2.2.2.2)
+            (by rw [hri]; exact hle)]
+          simp only [List.length_append, List.length_map, List.length_replicate, hri]
+          omega
+        have hxs_out : out[i].xs.length = max qx.length qy.length := by
+          have : (setMeta Variant.current (serialize Variant.current regs).cols incl1 rows[i].component region).xs
+              = region.xs := by simp only [setMeta]; split <;> rfl
+          rw [hout, this, (hx.2 rfl).2]
+        have : out[i].xs.length = r.xs.length := by rw [hsame.xs, hri]
+        have hge : qx.length ≤ max qx.length qy.length := Nat.le_max_left _ _
+        omega
+
+/-- `fits_roundtrip`, partial — the property minus exactly the F10 class: on the current code every list
+of representable regions in which no polygon is shorter than the longest one round-trips exactly:
+same classes, identical geometry in ℚ, same exclude flag (F8, F9 repaired), components clause.
+Any length, any mix of classes, any padding of the non-polygon rows. -/
 theorem fits_roundtrip_partial (regs : List Reg) (hrep : ∀ r ∈ regs, representable r = true)
-    (hok : Unaffected regs) :
+    (hok : NoShortPolygon regs) :
     ∃ out, parseTable Variant.current (serialize Variant.current regs) = .ok out ∧
       List.Forall₂ SameRegion regs out ∧ ComponentsOK (regs.map (·.comp)) (out.map (·.comp)) :=
-  roundtrip_core Variant.current regs hrep hok.1 hok.2.1 hok.2.2
+  roundtrip_core Variant.current regs hrep (fun r _ => by simp [ok8, Variant.current])
+    (by simp [ok9, Variant.current]) (ok10_of_noShortPolygon _ regs hok)
 
-/-- the predicate is satisfiable by a non-trivial mixed list that needs padding in X, Y and R, has an
-excluded region, and meets every hypothesis of `fits_roundtrip_partial`. -/
+/-- the predicate is satisfiable by a non-trivial mixed list: padding in X, Y and R, excluded regions of the
+renamed/halved classes (the F8 class), an excluded region next to given components (the F9 class),
+components partially present (the F121 class), two polygons of equal length. -/
 def sampleList : List Reg :=
-  [⟨.circle, false, [1], [2], [3], none, .bool false, none⟩,
-   ⟨.ellipse, false, [5 / 2], [-4], [4, 2], some 30, .int 1, none⟩,
-   ⟨.ellipseAnnulus, false, [0], [0], [1, 2, 3, 4], some 45, .absent, none⟩,
+  [⟨.circle, false, [1], [2], [3], none, .bool false, some 7⟩,
+   ⟨.ellipse, false, [5 / 2], [-4], [4, 2], some 30, .int 0, none⟩,
+   ⟨.ellipseAnnulus, false, [0], [0], [1, 2, 3, 4], some 45, .bool false, none⟩,
+   ⟨.circleAnnulus, false, [0], [0], [1, 2], none, .int 0, some 2⟩,
    ⟨.polygon, false, [1, 2, 3], [4, 5, 15 / 2], [], none, .int 0, none⟩,
    ⟨.regularPolygon, false, [0, 1, 2], [3, 1, 3], [], none, .absent, none⟩,
-   ⟨.rectangle, false, [7], [8], [2, 1], some 90, .bool true, none⟩]
+   ⟨.rectangle, false, [7], [8], [2, 1], some 90, .int 0, none⟩]
 
-example : (∀ r ∈ sampleList, representable r = true) ∧ Unaffected sampleList := by decide +kernel
+example : (∀ r ∈ sampleList, representable r = true) ∧ NoShortPolygon sampleList := by decide +kernel
 
-/-- `fits_roundtrip` with the three proposed patches applied: the full property. -/
+/-- and the witness of the refutation is outside it. -/
+example : (∀ r ∈ wF10, representable r = true) ∧ ¬ NoShortPolygon wF10 := by decide +kernel
+
+/-- `fits_roundtrip` with the F10 patch applied as well: the full property. -/
 theorem fits_roundtrip_fixed : RoundTrip Variant.fixed :=
   (roundTrip_iff Variant.fixed).mpr ⟨rfl, rfl, rfl⟩
 
 /-- through a file, full strength, current code. -/
 def fits_file_roundtrip_full : Prop := FileRoundTrip Variant.current
 
+/-- refuted by the same F10 witness (F121 is repaired: every table the writer produces can be written). -/
 theorem fits_file_roundtrip_full_refuted : ¬ fits_file_roundtrip_full :=
-  fun h => absurd ((fileRoundTrip_iff Variant.current).mp h) (by decide)
+  fun h => not_roundtrip_of_F10 true true true (roundTrip_of_fileRoundTrip _ h)
 
-/-- through a file, partial: additionally the components are all given or all absent (F25). -/
+/-- through a file, partial: the same predicate, nothing else (components absent, given, or partly
+given), for every lawful file layer. -/
 theorem fits_file_roundtrip_partial {F : Type} (fl : FileLayer F) (hfl : fl.Lawful) (regs : List Reg)
-    (hrep : ∀ r ∈ regs, representable r = true) (hok : Unaffected regs)
-    (h25 : ok25 Variant.current regs = true) :
+    (hrep : ∀ r ∈ regs, representable r = true) (hok : NoShortPolygon regs) :
     ∃ out, throughFile fl Variant.current regs = .ok out ∧
       List.Forall₂ SameRegion regs out ∧ ComponentsOK (regs.map (·.comp)) (out.map (·.comp)) :=
-  file_roundtrip_core fl hfl Variant.current regs hrep hok.1 hok.2.1 hok.2.2 h25
+  file_roundtrip_core fl hfl Variant.current regs hrep (fun r _ => by simp [ok8, Variant.current])
+    (by simp [ok9, Variant.current]) (ok10_of_noShortPolygon _ regs hok) (by simp [ok121, Variant.current])
 
-example : ok25 Variant.current sampleList = true ∧ idFileLayer.Lawful := ⟨by decide +kernel, idFileLayer_lawful⟩
+example : idFileLayer.Lawful := idFileLayer_lawful
 
 theorem fits_file_roundtrip_fixed : FileRoundTrip Variant.fixed :=
   (fileRoundTrip_iff Variant.fixed).mpr ⟨rfl, rfl, rfl, rfl⟩
@@ -1843,32 +2043,33 @@ theorem fits_file_roundtrip_fixed : FileRoundTrip Variant.fixed :=
 /-- the fixed point at full strength, current code. -/
 def fits_fixed_point_full : Prop := FixedPoint Variant.current
 
-theorem fits_fixed_point_full_refuted : ¬ fits_fixed_point_full :=
-  fun h => absurd ((fixedPoint_iff Variant.current).mp h) (by decide)
+/-- PROVED on the current code (F8 is repaired; F10 does not disturb the fixed point: what the reader
+returns is already in its own normal form — all polygons read from one table are equally long). -/
+theorem fits_fixed_point : fits_fixed_point_full := (fixedPoint_iff Variant.current).mpr rfl
 
-/-- the fixed point, partial: parse ∘ serialise ∘ parse = parse on every table from which no excluded
-ellipse / annulus / elliptical annulus / box is read (F8).  (F9 and F10 do not disturb the fixed
-point: what the reader returns is already in its own normal form.) -/
-theorem fits_fixed_point_partial (t : Table) (regs : List Reg)
-    (hp : parseTable Variant.current t = .ok regs) (hwf : ReadFromRealTable Variant.current regs)
-    (h8 : ∀ r ∈ regs, ok8 Variant.current r = true) :
+/-- … and for real (rectangular) tables without any side condition. -/
+theorem fits_fixed_point_rectangular (t : Table) (hrect : Rectangular t) (regs : List Reg)
+    (hp : parseTable Variant.current t = .ok regs) :
     parseTable Variant.current (serialize Variant.current regs) = .ok regs :=
-  fixed_point_core Variant.current t regs hp hwf.1 h8 hwf.2
+  fixed_point_rectangular Variant.current rfl t hrect regs hp (fun r _ => by simp [ok8, Variant.current])
 
-/-- non-vacuity: a table in the other notations (corner forms, upper case, excluded point, padded)
-parses, and what is parsed meets the hypotheses of `fits_fixed_point_partial`. -/
+/-- non-vacuity: a rectangular table in the other notations (corner form, upper case, excluded ellipse and
+box — the former F8 class —, padded) parses, and what is parsed meets the hypotheses. -/
 example :
     let t : Table := ⟨stdCols false,
-      [⟨"RECTANGLE".toList, .vec [some 1, some 4], .vec [some 2, some 8], .vec [some 0, some 0], .scalar (some 0), 0⟩,
-       ⟨"!point".toList, .vec [some 3, some 0], .vec [some 3, some 0], .vec [some 0, some 0], .scalar (some 0), 0⟩,
+      [⟨"RECTANGLE".toList, .vec [some 1, some 4], .vec [some 2, some 8], .vec [some 1, some 1], .scalar (some 0), 0⟩,
+       ⟨"!ellipse".toList, .vec [some 3, some 0], .vec [some 3, some 0], .vec [some 2, some 1], .scalar (some 30), 0⟩,
+       ⟨"!BOX".toList, .vec [some 3, some 0], .vec [some 3, some 0], .vec [some 2, some 1], .scalar (some 0), 0⟩,
        ⟨"polygon".toList, .vec [some 1, some 4], .vec [some 2, some 8], .vec [some 0, some 0], .scalar (some 0), 0⟩],
       false⟩
-    ∃ regs, parseTable Variant.current t = .ok regs ∧ regs.length = 3 ∧ ReadFromRealTable Variant.current regs ∧
-      ∀ r ∈ regs, ok8 Variant.current r = true := by
-  refine ⟨[⟨.rectangle, false, [5 / 2], [5], [3, 6], some 0, .absent, none⟩,
-           ⟨.point, false, [3], [3], [], none, .int 0, none⟩,
-           ⟨.polygon, false, [1, 4], [2, 8], [], none, .absent, none⟩],
-    by decide +kernel, by decide +kernel, ⟨by decide +kernel, by decide +kernel⟩, by decide +kernel⟩
+    Rectangular t ∧ ∃ regs, parseTable Variant.current t = .ok regs ∧ regs.length = 4 ∧
+      ReadFromRealTable Variant.current regs := by
+  refine ⟨⟨2, 2, by decide, by decide, by decide +kernel⟩,
+    [⟨.rectangle, false, [5 / 2], [5], [3, 6], some 0, .absent, none⟩,
+     ⟨.ellipse, false, [3], [3], [4, 2], some 30, .int 0, none⟩,
+     ⟨.rectangle, false, [3], [3], [2, 1], some 0, .int 0, none⟩,
+     ⟨.polygon, false, [1, 4], [2, 8], [], none, .absent, none⟩],
+    by decide +kernel, by decide +kernel, ⟨by decide +kernel, by decide +kernel⟩⟩
 
 theorem fits_fixed_point_fixed : FixedPoint Variant.fixed := (fixedPoint_iff Variant.fixed).mpr rfl
 
